@@ -245,3 +245,68 @@ def run_b(run, P):
         run.stats['width_solver_steps'] += ctx.steps
     for n, why in SCOPE_B_EXCEPTIONS.items():
         run.notes.append('R-WIDTH(b) exception %s: %s' % (n, why))
+
+
+# ---------------------------------------------------------------------------------------------------------------
+def run_c(run, P):
+    """R-WIDTH (c): a named constant (macro / enumerator) assigned to a record field survives the implicit conversion to the field's
+    type.  libcoap marks "none yet" with sentinels outside the value space (COAP_INVALID_MID = -1 in an int-sized coap_mid_t, while
+    real message ids are 0..65535); if the field is narrowed the sentinel wraps onto a legal value (0xFFFF) and the first message
+    that carries it is taken for a duplicate.  Library-wide; constants without a name (plain -1 / ~0 idioms) are not judged."""
+    from core.prog import strip, walk, ap, short, const_int
+    run.rule('R-WIDTH')
+    n = 0
+    # the extractor folds `field = MACRO` to the converted value; the macro's own value is what it has where it appears in its
+    # widest (then signed) type anywhere in the program
+    canon = {}
+    for f in P.funcs.values():
+        for b, ev in P.events(f):
+            for x in walk(ev['e']):
+                if isinstance(x, dict) and x.get('k') == 'int' and (x.get('mn') or x.get('en')):
+                    nm = x.get('mn') or x.get('en')
+                    rank = (x.get('w', 0), 1 if x.get('s') else 0)
+                    if nm not in canon or rank > canon[nm][0]:
+                        canon[nm] = (rank, x['v'])
+        for b in f['blocks']:
+            c = (b.get('term') or {}).get('cond')
+            if c is not None:
+                for x in walk(c):
+                    if isinstance(x, dict) and x.get('k') == 'int' and (x.get('mn') or x.get('en')):
+                        nm = x.get('mn') or x.get('en')
+                        rank = (x.get('w', 0), 1 if x.get('s') else 0)
+                        if nm not in canon or rank > canon[nm][0]:
+                            canon[nm] = (rank, x['v'])
+    for f in sorted(P.lib_funcs(), key=lambda f: f['name']):
+        for b, ev in P.events(f):
+            t = ev['e']
+            if t.get('k') != 'asg' or t.get('op') != '=':
+                continue
+            l = strip(t['l'])
+            if not isinstance(l, dict) or l.get('k') != 'mem' or not l.get('w') or l.get('p'):
+                continue
+            inner = None
+            for x in walk(t['r']):
+                if isinstance(x, dict) and x.get('k') == 'int' and (x.get('mn') or x.get('en')):
+                    inner = x
+            r0 = strip(t['r'])
+            if inner is None or const_int(t['r']) is None:
+                continue
+            # only `field = CONSTANT` (possibly under casts), not expressions that merely contain one
+            y = t['r']
+            while isinstance(y, dict) and y.get('k') == 'cast':
+                y = y.get('e')
+            if y is not inner:
+                continue
+            n += 1
+            w = l['w']
+            lo, hi = (-(1 << (w - 1)), (1 << (w - 1)) - 1) if l.get('s') else (0, (1 << w) - 1)
+            v = canon.get(inner.get('mn') or inner.get('en'), (None, inner['v']))[1]
+            ok = lo <= v <= hi
+            run.oblige('R-WIDTH', ok, 'sentinel-fits')
+            if not ok:
+                run.instance('R-WIDTH', '%s: %s' % (f['name'], short(t)[:70]))
+                run.violation('R-WIDTH', f['name'], ev['loc'], 'constant-wraps:%s.%s' % (l.get('rec'), l['f']),
+                              '%s = %s (%d) does not fit the %d-bit %s field: the stored value is %d, a legal value of the quantity the field holds, so the "none yet" marker is '
+                              'indistinguishable from real data' % (short(l), inner.get('mn') or inner.get('en'), v, w, 'signed' if l.get('s') else 'unsigned', v & ((1 << w) - 1)), [])
+    run.instance('R-WIDTH', 'named-constant stores into record fields: %d' % n, n=1 if n else 0)
+    run.require(n >= 50 or run.fixture_mode, 'R-WIDTH(c): only %d stores of named constants into record fields found' % n)
